@@ -2,6 +2,7 @@ import Driver.Common
 import Driver.C16
 import Driver.C13
 import Driver.C12
+import Driver.C17
 open Driver
 
 def dispatch (id : String) (toks : List String) (impl : String) : Verdict :=
@@ -9,6 +10,7 @@ def dispatch (id : String) (toks : List String) (impl : String) : Verdict :=
   | "C16" => Driver.C16.handle toks impl
   | "C13" => Driver.C13.handle toks impl
   | "C12" => Driver.C12.handle toks impl
+  | "C17" => Driver.C17.handle toks impl
   | _ => badOp "unknown property"
 
 /-- Split `line` at the first occurrence of " => ". -/
